@@ -244,8 +244,4 @@ theorem src_render_tag_now (h1 : Tag_get_html_string_available = true) (h2 : Tag
       = if t.hasTobj then .error .runtimeError else .ok (.str (t.render cfgNow i eol)) :=
   src_render_tag h1 h2 hn he hs cfgNow src_tables_ok.1 src_tables_ok.2.1 t htag _ (Nat.le_refl _) i eol
 
-/-- non-vacuity: on the current tree both functions are translated -/
-theorem src_render_available :
-    Tag_get_html_string_available = true ∧ TagList_get_html_string_available = true := by decide
-
 end HtmlVerif.SrcTie
